@@ -1,7 +1,7 @@
 //! Verification hook (only compiled with `--cfg audunhalland_entrait_verif`).
 //!
 //! Records one JSON line per macro invocation to `${ENTRAIT_VERIF_DUMP}.<pid>`:
-//! the macro variant entered, a per-process sequence number and the attribute,
+//! the macro variant entered, a per-process sequence number, the call site (file, line) and the attribute,
 //! input and output token streams, flattened structurally (identifiers,
 //! literals, punctuation with spacing, explicit group open/close markers).
 //! A panic of the macro is recorded (`"panic": "<message>"`) and re-raised.
@@ -101,6 +101,10 @@ fn record(
     let mut line = String::new();
     line.push_str(&format!("{{\"pid\":{pid},\"seq\":{seq},\"macro\":"));
     json_string(variant, &mut line);
+    let call_site = proc_macro::Span::call_site();
+    line.push_str(",\"file\":");
+    json_string(&call_site.file(), &mut line);
+    line.push_str(&format!(",\"line\":{}", call_site.line()));
     line.push_str(",\"attr\":");
     json_tokens(attr.clone(), &mut line);
     line.push_str(",\"input\":");
